@@ -94,10 +94,12 @@ ClWidths(q) == Len(q.widths) = N(q) - 1 /\ (WidthsLower(q) \/ WidthsUpper(q))
 ClIncreasing(q) == \A j \in 1..(Len(q.widths) - 1) : DLt(q.widths[j], q.widths[j + 1])
 VScale(q) == DMax(DAbs(DSub(q.V[N(q)], q.V[1])), MaxAbs(q.volumes))
 ClZeroExact(q) == q.zero => LET vs == VScale(q) IN
-                            /\ \A j \in 1..(N(q) - 1) : Near(q.volumes[j], DSub(q.V[j + 1], q.V[j]), q.tolk, vs)
-                            /\ Near(MSum(q.volumes), DSub(q.V[N(q)], q.V[1]), q.tolk, vs)
+                            /\ \A j \in 1..(N(q) - 1) : Near(q.volumes[j], DSub(q.V[j + 1], q.V[j]), q.tolk, DMax(vs, DAbs(q.V[j + 1])))
+                            /\ Near(MSum(q.volumes), DSub(q.V[N(q)], q.V[1]), q.tolk, DMax(vs, DAbs(q.V[N(q)])))
 ClDensity(q) == LET vs == VScale(q) IN
-                \A j \in 1..(N(q) - 1) : Near(DMul(q.dist[j], DSub(SpecW(q, j + 1), SpecW(q, j))), q.volumes[j], q.tolk, vs)
+                \* (the absolute scale covers the cancellation in the width increment of 8-digit decimals)
+                \A j \in 1..(N(q) - 1) : Near(DMul(q.dist[j], DSub(SpecW(q, j + 1), SpecW(q, j))), q.volumes[j], q.tolk,
+                                               DMax(vs, DMul(DAbs(q.dist[j]), DAdd(SpecW(q, j + 1), SpecW(q, j)))))
 ClCumulative(q) == Len(q.cum) = 0 \/ LET vs == VScale(q) IN
                    /\ Len(q.cum) = N(q) - 1
                    /\ Near(q.cum[N(q) - 1], q.V[N(q)], q.tolk, vs)
